@@ -10,6 +10,12 @@ CHECKS = {
     text="Every (carrier, value, restriction set) triple in an exhaustive small-bound sweep (all subsets of the numeric facets, of the length facets and of an enumeration pool, all integer carriers with their extremes, multi-byte strings) and tens of thousands of proptest-generated full-range triples with Option/Vec nesting are run through the helper source compiled unmodified from /repo and compared with an independent facet specification. Disagreements are minimised to their cause and shrunk. Held = no disagreement on anything explored; not a proof for all i32 bounds.",
     note="Trusted: the harness's facet specification (c06.rs spec_leaf), rustc. Text that is a decimal/float/padded numeral under numeric facets is generated but not judged.",
     design="DESIGN.md section 4 C06"),
+ "C12": dict(
+    category="exploration",
+    technique="metamorphic property-based testing: byte equality of outputs across sampled hash seeds (repeats, threads, fresh processes), permuted file registration orders and call histories on one FilesToRead, over generated order-sensitive WSDLs and the repository corpus",
+    text="Every repository input and proptest-generated WSDLs with many operations / multi-part messages are generated repeatedly: in-process (fresh RandomState per map), in threads, in K fresh processes, under every registration order of the sibling files, three times on the same FilesToRead object, and written twice from one document; all outputs must be byte-identical to the first. Hash seeds are sampled, not controlled; with >= 3 operations 8 seeds agreeing by chance is < 1e-5.",
+    note="Trusted: byte comparison. readdir order of a real file system is approximated by registration order here; the CLI directory-order axis is covered by C17.",
+    design="DESIGN.md section 4 C12"),
  "C15": dict(
     category="fault_enumeration",
     technique="fault injection enumerated over every write call of the sink (fail-once and dead-sink modes, rotated error kinds, Interrupted, short writes) with an Err/Ok/panic oracle and byte comparison",
